@@ -1,12 +1,17 @@
-PROP = {'id': 'C15', 'level': 'proof',
- 'functions': ['PipelineManager._submit_next_stage'],
- 'native': ['PipelineManager._submit_next_stage'],
+PROP = {'id': 'C15',
+ 'level': 'proof',
+ 'functions': ['PipelineManager._submit_next_stage', 'JobSubmitter._handle_completion'],
+ 'native': ['PipelineManager._submit_next_stage', 'JobSubmitter._handle_completion'],
  'lemmas': ['lemma_c15_pipeline_order'],
  'records': ['PipelineManager', 'PipelineConfig', 'PipelineStage'],
  'min_obligations': 50,
- 'assumptions': ['JobSubmitter.run_submit_jobs / create_config_from_file / _run_auto_config / _serialize are assumed boundary contracts (ghost: stage number handed over, save counter)',
-                 'environment: `pipeline submit` is invoked once; submit-next-stage for k is triggered by the completion of stage k-1 (C05: a submission completes once)',
+ 'assumptions': ['JobSubmitter.run_submit_jobs / create_config_from_file / _run_auto_config / _serialize are assumed boundary contracts (ghost: stage number '
+                 'handed over, save counter)',
+                 'environment: `pipeline submit` is invoked once; submit-next-stage for k is triggered by the completion of stage k-1 (C05: a submission '
+                 'completes once)',
                  'pipeline.json has no lock: truly concurrent triggers are outside the contracts'],
  'not_decided': ["the auto-config commands' effects", 'JobSubmitter._handle_completion issuing the trigger after mark_complete (not yet under contract)'],
- 'explanation': 'Per call: in-order trigger records the return code, advances stage_num by one, saves, and hands exactly that stage to run_submit_jobs (or marks the pipeline complete after the last); '
-                'any other trigger raises InvalidParameter and changes nothing. Lemma L-C15 gives exactly-once, in order.'}
+ 'explanation': 'Per call: in-order trigger records the return code, advances stage_num by one, saves, and hands exactly that stage to run_submit_jobs (or '
+                'marks the pipeline complete after the last); any other trigger raises InvalidParameter and changes nothing. Lemma L-C15 gives exactly-once, '
+                'in order. The trigger of the next stage is issued by _handle_completion only after the completion flag of this stage is persisted (event-log '
+                'order clause).'}
